@@ -64,6 +64,10 @@ func c14Specials() []c14Input {
 		mk("while true\n    print \"x\"\nend\n"),
 		mk("x := 0\nwhile true\n    x = x + 1\nend\n"),
 		mk("while true\n    if true\n        x := 1\n        x = x + 1\n    end\nend\n"),
+		// endless loops whose condition is a leaf (literal / variable) and whose body has nothing to evaluate: still one yield per iteration
+		mk("while true\n    // nothing\nend\n"),
+		mk("go := true\nwhile go\n\n    // only a comment\n\nend\n"),
+		mk("func spin\n    on := true\n    while on\n        // spin\n    end\nend\nprint \"a\"\nspin\n"),
 		mk("func f n:num\n    f n+1\nend\nf 0\n"),
 		mk("func f:num n:num\n    print n\n    return (f n+1)\nend\nprint (f 0)\n"),
 		mk("for i := range 1000000\n    for j := range 1000000\n        print i j\n    end\nend\n"),
